@@ -652,6 +652,25 @@ theorem c05_observation_refines_c01 (s1 : State) (s5 : FxVerif.Model.C05.State) 
     exact ⟨by rw [h1]; exact hS.1, by rw [h3]; exact hS.2⟩
 
 
+open FxVerif.Proofs.C01Refine in
+/-- C05 / C06, WHOLE RUNS.  A joint history (`JOp`: claims of any bridger / nonce / claim id carrying an event of the C05 model —
+the C05 model observes the event exactly when the claim makes it take effect in this model —, registry operations of this
+model, pool / batch / bridge-call operations of the C05 model, deferred executions of parked result claims in both) from the
+initial states keeps the two models together: in EVERY state reached the C05 model's event counter IS this model's last
+observed nonce, every claim parked there is parked here, its parked nonces are distinct — and therefore the contiguity theorem
+of this property speaks about the C05 / C06 model's event order: the events it applied are 1 … eventNonce, in this order. -/
+theorem c05_runs_refine_c01_runs (p : Params) (s5 : FxVerif.Model.C05.State) (h0 : s5.eventNonce = 0) (hp : s5.pending = [])
+    (ops : List JOp) :
+    (jrun (init p, s5) ops).2.eventNonce = (jrun (init p, s5) ops).1.lastObserved ∧
+    (∀ n ∈ (jrun (init p, s5) ops).2.pending.map (·.1), n ∈ (jrun (init p, s5) ops).1.pending) ∧
+    ((jrun (init p, s5) ops).2.pending.map (·.1)).Nodup ∧
+    (jrun (init p, s5) ops).1.observedLog.map Prod.fst = List.range' 1 (jrun (init p, s5) ops).2.eventNonce := by
+  have hR : Rel5 (init p, s5).1 (init p, s5).2 :=
+    ⟨by simp [h0, init], by simp [hp], by simp [hp], by simp [hp]⟩
+  have h := rel5_run (init p, s5) ops hR
+  have hI := inv_jrun (init p, s5) ops (inv_init p)
+  exact ⟨h.lo, h.sub, h.nd, by rw [h.lo]; exact hI.logC⟩
+
 /-- how the outcomes of the two models correspond -/
 def resMatch : FxVerif.Model.C03.VoteResult → Out → Prop
   | .ok, .ok => True
@@ -811,6 +830,18 @@ example : ∀ v, soleOracle3.powers.lookup v = (soleOracle.oracles.get v).map Or
 example : (FxVerif.Model.C03.vote (fun _ => 0) (fun _ _ => true) soleOracle3 1 resultClaim false).2 = .ok ∧
     (FxVerif.Model.C03.vote (fun _ => 0) (fun _ _ => true) soleOracle3 1 resultClaim false).1.lastObserved = 1 ∧
     (claimStep soleOracle 101 101 1 0 .pending).1.lastObserved = 1 := by decide
+
+/-- a joint history: a transfer and a bridge call in the C05 model, a result claim observed and parked in both, executed in
+both (the outgoing call exists: success), a batch event without its batch (panic in both: nothing moves) -/
+def jointDemo : List JOp :=
+  [ .right (.bridgeCall 0 0 "0x0000000000000000000000000000000000000001" "ab" "" []),
+    .claim 101 101 1 0 0 1001 (.result 1 true),
+    .exec 1,
+    .claim 101 101 2 0 0 1002 (.batch 0 9),
+    .claim 101 101 2 1 0 1002 .other ]
+
+example : let r := jrun (soleOracle, { obsExt := 1000, fxHeight := 5 }) jointDemo
+    r.1.lastObserved = 2 ∧ r.2.eventNonce = 2 ∧ r.1.executedLog = [1] ∧ r.2.pending = [] ∧ r.1.pending = [] := by decide
 
 end
 
